@@ -100,3 +100,34 @@ Example C11_chunked_example :
   | _ => False
   end.
 Proof. vm_compute. repeat split. Qed.
+
+(* ---- known finding K6: the premise "every re-serialised header line fits the line limit" of
+   C11_request_reserialise cannot be dropped.  The request below is accepted (its header line is exactly
+   1000 bytes with its CRLF), yet Request::generate -- rhymessage's fold_header included, Model/Headers.v
+   hdr_generate_full -- fails on the parsed value: written back as `X: vvv...` the line is one byte too long
+   and has no place to split.  The same input replayed on the crate is the finding's witness. ---- *)
+Definition k6_witness : bytes :=
+  str "GET / HTTP/1.1"%string ++ CRLF ++ str "X:"%string ++ repeat 118%N 996 ++ CRLF ++ CRLF.
+
+Theorem C11_unrestricted_request_reserialise_refuted :
+  exists st c,
+    req_parse bytes (fun b => Some b) default_cfg req_init k6_witness = (st, Complete c)
+    /\ c = length k6_witness
+    /\ req_generate_full default_cfg (r_method st) [47%N] (r_headers st) (r_body st) = GCannotFold.
+Proof.
+  eexists. eexists. split; [vm_compute; reflexivity|]. split; vm_compute; reflexivity.
+Qed.
+Print Assumptions C11_unrestricted_request_reserialise_refuted.
+
+(* what the folding generator does when the lines fit: exactly the unfolded generator's output *)
+Example C11_generate_full_agrees_when_lines_fit :
+  req_generate_full default_cfg (str "GET"%string) [47%N] [(str "Host"%string, str "a b"%string)] []
+  = match req_generate default_cfg (str "GET"%string) [47%N] [(str "Host"%string, str "a b"%string)] [] with
+    | Some b => GOk b | None => GCannotFold end.
+Proof. vm_compute. reflexivity. Qed.
+
+(* a fold at a tab: the piece after the split starts with the tab, which unfolding reads as a space *)
+Example C11_fold_at_tab :
+  hdr_generate_full (Some 12%N) [(str "A"%string, str "bcdef"%string ++ [HT] ++ str "ghij"%string)]
+  = GOk (str "A: bcdef"%string ++ CRLF ++ [HT] ++ str "ghij"%string ++ CRLF ++ CRLF).
+Proof. vm_compute. reflexivity. Qed.
